@@ -24,6 +24,19 @@ pub fn base_files(tier: Tier) -> Vec<(String, XzFile)> {
         v.push((format!("{} block(s) check {} size-fields {} extra-pad {}", nb, check, sizes, pad), mk(nb, check, sizes, pad)));
     }
     if tier == Tier::Thorough {
+        let kinds: Vec<(bool, bool, usize)> = vec![(false, false, 0), (true, false, 0), (false, true, 1), (true, true, 0), (false, false, 3), (true, true, 6)];
+        for (a, ka) in kinds.iter().enumerate() {
+            for (b, kb) in kinds.iter().enumerate() {
+                let blocks: Vec<Block> = [(0usize, ka), (1, kb)]
+                    .iter()
+                    .map(|(i, k)| {
+                        let (p, plain) = payload((i + a) % 3, (i + b) % 4, a * 7 + b);
+                        Block { payload: p, plain, with_csize: k.0, with_usize: k.1, extra_pad4: k.2, ..Default::default() }
+                    })
+                    .collect();
+                v.push((format!("2 heterogeneous blocks kinds {}/{} check {}", a, b, [1u8, 4, 0][(a + b) % 3]), XzFile { check_id: [1u8, 4, 0][(a + b) % 3], blocks, ..Default::default() }));
+            }
+        }
         for nb in 0..=3usize {
             for check in [0u8, 1, 4] {
                 for sizes in [false, true] {
